@@ -300,6 +300,20 @@ class Sym:
         # NumPy scalar API (np.float64.astype): a real stays a real
         return s
 
+    # further NumPy-scalar API that real-valued library code may touch on an array entry
+    def item(s, *a):
+        return s
+
+    def copy(s, *a, **kw):
+        return s
+
+    def conj(s):
+        return s
+
+    conjugate = conj
+    real = property(lambda s: s)
+    imag = property(lambda s: Sym(c=Fr(0)))
+
     def __bool__(s):
         # truthiness as for a Python/NumPy number (`if x:`, ndarray.any()/all() on object arrays): x != 0, a branch when symbolic
         if s.c is not None:
